@@ -59,24 +59,31 @@ def search(ck, tier, seed):
     for name, mk, D in (("StandardNormal", lambda ev: normal.StandardNormal(ev), None),
                         ("DiagonalNormal", lambda ev: normal.DiagonalNormal(ev), None),
                         ("ConditionalDiagonalNormal", lambda ev: normal.ConditionalDiagonalNormal(ev), None)):
-        for ev in ([1], [2], [1, 2], [2, 1, 1]):
+        for ev, layout in [(e_, l_) for e_ in ([1], [2], [1, 2], [2, 1, 1], [2, 3]) for l_ in ("flat", "structured")]:
+            if layout == "structured" and (name != "ConditionalDiagonalNormal" or len(ev) < 2):
+                continue
             d = mk(ev).double()
             numel = int(np.prod(ev))
-            ck.case(("normal", name, tuple(ev)), nontrivial=True)
-            case = {"search": "normal", "class": name, "event": ev}
+            ck.case(("normal", name, tuple(ev), layout), nontrivial=True)
+            case = {"search": "normal", "class": name, "event": ev, "context_layout": layout}
             ctx = None
             if name == "DiagonalNormal":
                 with torch.no_grad():
                     d.mean_.copy_(torch.randn(1, numel, generator=g, dtype=torch.float64) * 0.7)
                     d.log_std_.copy_(torch.randn(1, numel, generator=g, dtype=torch.float64) * 0.4)
             if name == "ConditionalDiagonalNormal":
-                ctx = torch.cat([torch.randn(1, numel, generator=g, dtype=torch.float64) * 0.7,
-                                 torch.randn(1, numel, generator=g, dtype=torch.float64) * 0.4], 1)
+                m_ = torch.randn(1, numel, generator=g, dtype=torch.float64) * 0.7
+                s_ = torch.randn(1, numel, generator=g, dtype=torch.float64) * 0.4
+                if layout == "flat":
+                    ctx = torch.cat([m_, s_], 1)
+                else:
+                    # the encoder output may keep the event's leading dimensions: [rows, *event[:-1], 2 * event[-1]]
+                    ctx = torch.cat([m_.reshape([1] + ev), s_.reshape([1] + ev)], -1)
 
             def logp(pts):
                 with torch.no_grad():
                     x = pts.reshape([-1] + ev)
-                    c = None if ctx is None else ctx.expand(x.shape[0], -1)
+                    c = None if ctx is None else ctx.expand(x.shape[0], *ctx.shape[1:])
                     return d.log_prob(x, c) if c is not None else d.log_prob(x)
             r = attempt(logp, torch.zeros(3, numel, dtype=torch.float64))
             if r[0] != "ok" or list(r[1].shape) != [3]:
@@ -91,6 +98,13 @@ def search(ck, tier, seed):
             if tot is not None and abs(tot - 1) > 1e-5:
                 ck.finding("normalisation:%s" % name, "event %s integrates to %r" % (ev, tot), case)
             mr = attempt(d.mean, ctx) if ctx is not None else attempt(d.mean)
+            # a normal's expectation is its mode: the gradient of log_prob vanishes at mean()
+            if mr[0] == "ok" and isinstance(mr[1], torch.Tensor) and mr[1].numel() == numel:
+                xm = mr[1].detach().reshape([1] + ev).clone().requires_grad_(True)
+                gl = attempt(lambda: torch.autograd.grad((d.log_prob(xm, ctx) if ctx is not None else d.log_prob(xm)).sum(), xm)[0])
+                if gl[0] == "ok" and float(gl[1].abs().max()) > 1e-8:
+                    ck.finding("mean:%s:not-the-mode" % name, "event %s (%s context): |grad log_prob(mean())| = %g" % (
+                        ev, layout, float(gl[1].abs().max())), case)
             if mr[0] != "ok" or not isinstance(mr[1], torch.Tensor):
                 ck.finding("mean:%s:not-a-tensor" % name, "mean() -> %s" % (mr[1:] if mr[0] != "ok" else type(mr[1]).__name__), case)
             else:
